@@ -77,7 +77,7 @@ pub fn run(ctx: &Ctx) -> Report {
         let mut base = EGraph::default();
         let filler = format!("(constructor Fi (i64) E)\n(relation dd (i64))\n{}\n(rule ((dd x)) ((HV (vec-of (Fi x))) (HS (set-of (Fi x))) (HM (multiset-of (Fi x) (Fi x)))))\n(run 1)\n", (0..FILL).map(|i| format!("(dd {i})")).collect::<Vec<_>>().join(" "));
         if engine::run(&mut base, &(HDR.to_string() + &filler)).is_ok() && base.get_size("HV") == FILL {
-            cases(&mut rep, &mut rng, ctx.n(40, 600), Some((&base, FILL, filler.clone())), &mut lean_lines, &mut lean_expect);
+            cases(&mut rep, &mut rng, ctx.n(40, 160), Some((&base, FILL, filler.clone())), &mut lean_lines, &mut lean_expect);
         } else { rep.violate("correspondence", "c14-setup", "large-container setup failed".into(), json!({})); }
     }
     match run_driver(&lean_lines) {
